@@ -387,7 +387,8 @@ fn main() {
                     g.iter().filter(|x| !x.value().is_text()).filter_map(|x| if x.unit().is_none() { None } else { amount_in(&c, x, unit).or_else(|| if x.unit() == Some(unit) { ends(x.value()).map(|(a, b, _)| (a, b)) } else { None }) }).collect()
                 };
                 let h1 = vec![q(txt("a pinch"), None), q(num(2.0), None), q(txt("a pinch"), None), q(num(1.0), Some("kg")), q(num(0.4), Some("g")),
-                              q(num(2.0), Some("bag")), q(num(1.0), Some("bag")), q(num(1.0), Some("can")), q(txt("some"), Some("g")), q(txt("some"), Some("g"))];
+                              q(num(2.0), Some("bag")), q(num(1.0), Some("bag")), q(num(1.0), Some("can")), q(txt("some"), Some("g")), q(txt("some"), Some("g")),
+                              q(num(2.0), Some("Tin")), q(num(5.0), Some("Tin")), q(num(1.0), Some(" tin"))];
                 match std::panic::catch_unwind(|| build(&h1)) {
                     Err(_) => problems.push("GroupedQuantity::add panicked".into()),
                     Ok(g) => {
@@ -395,6 +396,8 @@ fn main() {
                         if count_text(&g, "some") != 2 { problems.push(format!("GroupedQuantity: text \"some g\" added twice is listed {} time(s): {}", count_text(&g, "some"), g)); }
                         match amount(&g, "g").as_slice() { [(s, e)] if close(*s, 1000.4) && close(*e, 1000.4) => {}, o => problems.push(format!("GroupedQuantity: mass total {:?} expected 1000.4 g ({})", o, g)) }
                         match amount(&g, "bag").as_slice() { [(s, _)] if close(*s, 3.0) => {}, o => problems.push(format!("GroupedQuantity: bags {:?} expected 3 ({})", o, g)) }
+                        match amount(&g, "Tin").as_slice() { [(s, _)] if close(*s, 7.0) => {}, o => problems.push(format!("GroupedQuantity: unknown unit \"Tin\" added as 2 + 5: {:?} expected 7 ({})", o, g)) }
+                        match amount(&g, " tin").as_slice() { [(s, _)] if close(*s, 1.0) => {}, o => problems.push(format!("GroupedQuantity: unknown unit \" tin\": {:?} expected 1 ({})", o, g)) }
                         match amount(&g, "can").as_slice() { [(s, _)] if close(*s, 1.0) => {}, o => problems.push(format!("GroupedQuantity: cans {:?} expected 1 ({})", o, g)) }
                     }
                 }
@@ -538,7 +541,11 @@ fn main() {
                 Ok(Ok(c)) => {
                     // a built converter: the best units of time are units of time
                     let wrong: Vec<String> = c.best_units(cooklang::convert::PhysicalQuantity::Time, None).iter().filter(|u| u.physical_quantity != cooklang::convert::PhysicalQuantity::Time).map(|u| u.symbol().to_string()).collect();
-                    if wrong.is_empty() { println!("{}", json!({"outcome": "ok"})) } else { println!("{}", json!({"outcome": "inconsistent", "detail": format!("best units of time contain {:?}", wrong)})) }
+                    let bl = c.best_units(cooklang::convert::PhysicalQuantity::Time, None);
+                    let unordered = bl.windows(2).any(|w| w[0].ratio > w[1].ratio);
+                    if wrong.is_empty() && unordered {
+                        println!("{}", json!({"outcome": "unordered", "detail": format!("best units of time are not in increasing size: {:?}", bl.iter().map(|u| u.symbol().to_string()).collect::<Vec<_>>())}))
+                    } else if wrong.is_empty() { println!("{}", json!({"outcome": "ok"})) } else { println!("{}", json!({"outcome": "inconsistent", "detail": format!("best units of time contain {:?}", wrong)})) }
                 }
                 Ok(Err(e)) => println!("{}", json!({"outcome": "error", "detail": e.to_string()})),
                 Err(_) => println!("{}", json!({"outcome": "panic"})),
